@@ -25,7 +25,9 @@ RULE = (
     "declared outputs); never an emit name, a sentinel object, a plain input or the internal routing key; a selected but unproduced "
     "name is silently absent / warned about exactly once / a ValueError, per on_missing, on both runners; a select naming a "
     "non-output is rejected. The same filters hold for FAILED and PAUSED results. Part B: control-flow programs with cached gates "
-    "run twice on one runner (cache hit restores the routing decision): same key filters. Non-trivial = an entry point that "
+    "run twice on one runner (cache hit restores the routing decision): same key filters. Part C: an interval of a flat DAG nested "
+    "with an inner DEFAULT selection (a drawn subset of its outputs, possibly empty): the outer graph declares and returns exactly the "
+    "outside outputs plus the selected ones, with the reference values. Non-trivial = an entry point that "
     "excludes >=1 runnable upstream node together with a selection that drops >=1 produced output."
 )
 ASSUMPTIONS = ["a caller-supplied upstream name that is also a declared output may be returned (the statement allows declared outputs)"]
@@ -42,6 +44,24 @@ def _case(draw, tier):
                 n["cache"] = True
         return {"part": "B", "nodes": nodes, "runner": draw(st.sampled_from(["sync", "async"])), "select": draw(st.lists(st.integers(0, 9), max_size=2)),
                 "max_iter": draw(st.sampled_from([4, 10]))}
+    if prob(draw, 0.15):
+        # Part C: an interval of a flat DAG nested with an inner default selection (a drawn subset of its outputs that keeps
+        # everything consumed outside; possibly EMPTY = expose nothing)
+        topo = draw(gen.g1_nodes(3, 7, default_on_edge=0.0, p_const=0.15))
+        n = len(topo)
+        a = draw(st.integers(0, n - 1))
+        b = draw(st.integers(a + 1, n))
+        S = topo[a:b]
+        s_outs = [o for x in S for o in x["outs"]]
+        outside_params = {q for x in topo[:a] + topo[b:] for q in x["params"]}
+        must = [o for o in s_outs if o in outside_params]
+        free = [o for o in s_outs if o not in outside_params]
+        keep = [o for o in free if prob(draw, 0.4)]
+        sel = draw(st.permutations(must + keep))
+        if not s_outs:
+            sel = None  # a graph without outputs has nothing to select from (select() on it is left alone)
+        return {"part": "C", "topo": topo, "a": a, "b": b, "inner_select": None if sel is None else list(sel), "runner": draw(st.sampled_from(["sync", "async"])),
+                "order": draw(st.permutations(list(range(a + 1 + (n - b)))))}
     topo = draw(gen.g1_nodes(3, 8, default_on_edge=0.1, p_const=0.15))  # incl. outputs whose produced value is None / falsy
     # ordering signals
     if prob(draw, 0.4) and len(topo) >= 2:
@@ -171,9 +191,51 @@ def _part_b(case, ev):
     ev.case(case, False, sorted(labels))
 
 
+def _part_c(case, ev):
+    topo, a, b = case["topo"], case["a"], case["b"]
+    S = topo[a:b]
+    if case["inner_select"] is None:
+        ev.discard("part_C:no_inner_outputs")
+        return
+    sel = list(case["inner_select"])
+    wrapper = {"k": "graph", "name": "wrap", "graph": {"nodes": [dict(x) for x in S], "name": "wrap", "select": sel}}
+    outer = topo[:a] + [wrapper] + topo[b:]
+    outer = [outer[i] for i in case["order"]]
+    labels = {"part:C", "nested_default_selection", "inner_select:" + ("empty" if not sel else "subset")}
+    ctx = Ctx()
+    try:
+        g = make_graph(ctx, {"nodes": outer}, "sync")
+    except Exception as e:  # noqa: BLE001
+        ev.discard("construct:" + type(e).__name__)
+        return
+    # reference: inside the wrapper only the nodes that feed a selected output take part
+    sprod = {o: x["name"] for x in S for o in x["outs"]}
+    inner_active = ref.ancestors_closure(S, {sprod[o] for o in sel}) if sel else set()
+    active = {x["name"] for x in topo[:a] + topo[b:]} | set(inner_active)
+    hidden = [o for x in S for o in x["outs"] if o not in sel]
+    declared = {o for x in topo[:a] + topo[b:] for o in x["outs"]} | set(sel)
+    if set(g.outputs) != declared:
+        raise Violation("c16.nested_exposes", f"[part C select={sel}] the graph declares outputs {sorted(g.outputs)}; the nested graph selects {sel}, so {sorted(declared)} are expected (hidden: {hidden})")
+    vals = {q: ("in", q, 0) for q in g.inputs.required}
+    env, args = ref.eval_dag(topo, vals, {}, active=active)
+    out, _ = _run(case["runner"], g, vals)
+    tag = f"part C {case['runner']} inner select={sel}"
+    if out.status != "completed":
+        raise Violation("c16.status", f"[{tag}] {out.brief()}")
+    # (a selection does not forbid an inner node that feeds no selected output from running when its inputs happen to be
+    # available - only entry points restrict execution; what is judged is what the nested graph EXPOSES)
+    expect = {k: v for k, v in env.items() if k in declared}
+    if out.values != expect:
+        diff = {k: (J(out.values.get(k, "<absent>")), J(expect.get(k, "<absent>"))) for k in set(out.values) | set(expect) if out.values.get(k, "<absent>") != expect.get(k, "<absent>")}
+        raise Violation("c16.nested_selection_values", f"[{tag}] (got, expected) {diff}", leaked=any(k in hidden for k in out.values))
+    ev.case(case, bool(hidden), sorted(labels))
+
+
 def check_case(case, ev):
     if case["part"] == "B":
         return _part_b(case, ev)
+    if case["part"] == "C":
+        return _part_c(case, ev)
     topo = case["topo"]
     nodes = [topo[i] for i in case["order"]]
     if case["special"] == "interrupt":
